@@ -991,6 +991,8 @@ class World:
         raise Unsupported("attribute %s of %r" % (name, obj))
 
     def obj_getattr(self, ex, obj, name, node):
+        if name == "__class__":
+            return VCls(sym.ty(obj.t))
         """Attribute of an object of unknown class: uninterpreted attr function; AttributeError
         when hasattr is false."""
         if not ex.spec_mode:
